@@ -130,10 +130,9 @@ impl fmt::Display for Xerr {
             Xerr::SeekError { src, offset } => {
                 write!(
                     f,
-                    "bitstr offset {} out of range {}..{}",
+                    "bitstr offset {} out of range 0..{}",
                     offset,
-                    src.start(),
-                    src.end()
+                    src.len()
                 )
             }
             Xerr::MatchError {
